@@ -9,6 +9,9 @@ impl EcoString {
     pub fn as_str(&self) -> (r: &str) ensures r@ == self@ { unimplemented!() }
     #[verifier::external_body]
     pub fn to_string(&self) -> (r: String) ensures r@ == self@ { unimplemented!() }
+    /// byte length (a string never exceeds isize::MAX bytes)
+    #[verifier::external_body]
+    pub fn len(&self) -> (r: usize) ensures r <= isize::MAX as usize { unimplemented!() }
 }
 impl core::ops::Deref for EcoString {
     type Target = str;
